@@ -558,7 +558,11 @@ func history(c *core.Child, r *core.RNG, m *model.Schema, vseed uint64, pool []q
 	lookups := uint64(0)
 	sawHit, sawEvict, sawSwap := false, false, false
 	var opsDesc []string
+	unexplained := 0 // mismatches other than the recorded finding: a history that keeps failing is abandoned
 	fail := func(sig, msg string, q *query) {
+		if sig != sigNormalizedLocations {
+			unexplained++
+		}
 		d := map[string]interface{}{"options": fmt.Sprintf("%+v nil=%v", opts, nilCache), "history": opsDesc, "schema": m.SDL()}
 		if q != nil {
 			d["query"] = q.text
@@ -569,7 +573,7 @@ func history(c *core.Child, r *core.RNG, m *model.Schema, vseed uint64, pool []q
 		c.Violation(sig, msg, d)
 	}
 	for step := 0; step < n; step++ {
-		if c.Violations() > 30 {
+		if unexplained > 30 {
 			return
 		}
 		switch x := r.Intn(100); {
